@@ -440,6 +440,36 @@ func (c *e7ctx) isChanParam(v ssa.Value) bool {
 					return isP
 				}
 			}
+			// inside a closure: the captured cell of the enclosing function's channel parameter
+			if fv, ok := x.X.(*ssa.FreeVar); ok {
+				g := fv.Parent()
+				if g == nil || g.Parent() == nil {
+					return false
+				}
+				idx := -1
+				for i, f := range g.FreeVars {
+					if f == fv {
+						idx = i
+					}
+				}
+				found := false
+				for _, b := range g.Parent().Blocks {
+					for _, ins := range b.Instrs {
+						mc, isMC := ins.(*ssa.MakeClosure)
+						if !isMC || mc.Fn != ssa.Value(g) || idx < 0 || idx >= len(mc.Bindings) {
+							continue
+						}
+						if al, isAl := mc.Bindings[idx].(*ssa.Alloc); isAl {
+							if sv := e7singleStore(al); sv != nil {
+								if _, isP := sv.(*ssa.Parameter); isP {
+									found = true
+								}
+							}
+						}
+					}
+				}
+				return found
+			}
 		}
 	}
 	return false
